@@ -2,6 +2,7 @@ package main
 
 import (
 	"go/token"
+	"go/types"
 
 	"golang.org/x/tools/go/ssa"
 )
@@ -308,6 +309,39 @@ func runC04(c *Ctx) {
 			c.Check(!PParam("validators")(r.Results[0]), fk(f, "cap-applies"), r, "with a non-zero cap smaller than the set the set is truncated")
 		}
 	}
+	// ---- R5 ------------------------------------------------------------------------------------
+	c.Rule("R5", "overflow hazard: NoMoreThanPercentOfTheSum never multiplies a power total in fixed-width integer arithmetic (total consensus power may approach 2^60, so sum*percent overflows int64)", 1)
+	if f := c.Fn("pk.NoMoreThanPercentOfTheSum"); f != nil {
+		bad := 0
+		for _, in := range allInstrs(f) {
+			b, ok := in.(*ssa.BinOp)
+			if !ok || b.Op != token.MUL {
+				continue
+			}
+			if bt, ok := b.Type().Underlying().(*types.Basic); !ok || bt.Info()&types.IsInteger == 0 {
+				continue
+			}
+			fromSum := func(v ssa.Value) bool {
+				for _, r := range roots(v) {
+					if cl, _ := callOf(r); cl != nil && isCallTo(cl, "pk.sum") {
+						return true
+					}
+					if _, n, ok := fieldLoadOf(r); ok && n == "Power" {
+						return true
+					}
+				}
+				return false
+			}
+			if fromSum(b.X) || fromSum(b.Y) {
+				bad++
+				c.Check(false, fk(f, "fixed-width-product-of-power-total"), in, "a power total is multiplied in fixed-width integer arithmetic: "+describe(b))
+			}
+		}
+		if bad == 0 {
+			c.Check(true, fk(f, "no-fixed-width-product-of-power-total"), f, "no integer multiplication involving sum(validators) or a Power field")
+		}
+	}
+
 	// ---- R4 ------------------------------------------------------------------------------------
 	c.Rule("R4", "CapValidatorsPower: NoMoreThanPercentOfTheSum(validators, cap) iff cap > 0, else identity", 2)
 	if f := c.Fn("pk.Keeper.CapValidatorsPower"); f != nil {
